@@ -36,7 +36,7 @@ type scScenario struct {
 	AuxKind string `json:"auxkind"`
 	NoTmp   bool   `json:"notmp"`
 	TmpKind string `json:"tmpkind"` // "" dir | file | dangling
-	Algo    string `json:"algo"` // default set algorithm: scrypt | argon
+	Algo    string `json:"algo"`    // default set algorithm: scrypt | argon
 	Empty   bool   `json:"empty"`
 	WasAdm  bool   `json:"wasadmin"`
 }
@@ -254,7 +254,7 @@ func scoracle() {
 	}
 	cfg := filepath.Join(dir, "oracle-store.yml")
 	os.WriteFile(cfg, []byte(ref.YAML(base, def, sets)), 0600) //nolint:errcheck
-	defer os.Remove(cfg)                                        //nolint:errcheck
+	defer os.Remove(cfg)                                       //nolint:errcheck
 	d, err := store.NewDirFromConfig(cfg)
 	if err != nil {
 		bad("oracle cannot open the store: %v", err)
@@ -440,7 +440,7 @@ func scoracle() {
 	td, terr := func() (*store.Dir, error) {
 		tcfg := filepath.Join(dir, "oracle-template.yml")
 		os.WriteFile(tcfg, []byte(ref.YAML(tbase, def, sets)), 0600) //nolint:errcheck
-		defer os.Remove(tcfg)                                         //nolint:errcheck
+		defer os.Remove(tcfg)                                        //nolint:errcheck
 		return store.NewDirFromConfig(tcfg)
 	}()
 	checkBefore := terr == nil && td.Check() == nil
@@ -480,7 +480,6 @@ func scoracle() {
 	out, _ := json.Marshal(map[string]any{"state": state, "problems": problems, "tmp_residue": len(tmpEntries), "check_before": checkBefore, "check_now": checkNow})
 	fmt.Println(string(out))
 }
-
 
 func init() {
 	stages["c08readers"] = c08readers
